@@ -20,8 +20,9 @@
    "chan_type" strings ("single" / "stack" exactly); title and labels copied with snprintf into MAX_PCF_LABEL
    (512) bytes, longer -> error; "labels" optional but an object when present; label keys through strtoll (ANY
    int64: zero and negative keys are NOT refused here), label values strings.  Any error fails mark_create, hence
-   the emulation.  The PCF gets pcf_add_value(type, (int) value, label): the int64 label value is TRUNCATED to int
-   and a repeated (truncated) value is an error.
+   the emulation.  The PCF gets pcf_add_value(type, value, label) with the int64 value (a repeated value is an
+   error; it cannot happen after the merge).  Before the repair of C17's finding label-value-truncated-to-int the
+   value was TRUNCATED to int on the way: the *_old definitions.
 
    long and int64_t are 64 bits (LP64), int is 32 bits.  Strings are byte lists without NUL. *)
 From OV Require Import Base.CInt Emu.MarkDefs Rt.RtMetaDefs.
@@ -299,29 +300,42 @@ Definition emu_types_of_trees (ts : list json) : option (list mtype) :=
   | None => None
   end.
 
-(* --- the PCF sections (create_type): pcf_add_value(pcftype, (int) value, label) *)
-Fixpoint pcf_values (acc : list (Z * str)) (ls : list (Z * str)) : option (list (Z * str)) :=
+(* --- the PCF sections (create_type): pcf_add_value(pcftype, value, label), a repeated value is an error.
+   `cast` is what happens to the int64 label value on its way into the PCF: nothing since the repair
+   (struct pcf_value.value is int64_t); before it, pcf_add_value took an int and mark.c passed (int) l->value
+   (the *_old definitions: the model of the code before the repair, kept for C17_labels_beyond_int_refuted_old). *)
+Fixpoint pcf_values_with (cast : Z -> Z) (acc : list (Z * str)) (ls : list (Z * str)) : option (list (Z * str)) :=
   match ls with
   | [] => Some acc
   | (v, s) :: r =>
-    let v' := cast_int32 v in
+    let v' := cast v in
     if existsb (fun p => fst p =? v') acc then None          (* "PCF value already in type" *)
-    else pcf_values (acc ++ [(v', s)]) r
+    else pcf_values_with cast (acc ++ [(v', s)]) r
   end.
 
-Definition pcf_section (m : mtype) : option (Z * str * list (Z * str)) :=
-  match pcf_values [] (mt_labels m) with
+Definition pcf_section_with (cast : Z -> Z) (m : mtype) : option (Z * str * list (Z * str)) :=
+  match pcf_values_with cast [] (mt_labels m) with
   | Some vs => Some (100 + mt_type m, mt_title m, vs)
   | None => None
   end.
-Definition pcf_of_types (ms : list mtype) : option (list (Z * str * list (Z * str))) := all_some (map pcf_section ms).
+Definition pcf_of_types_with (cast : Z -> Z) (ms : list mtype) : option (list (Z * str * list (Z * str))) :=
+  all_some (map (pcf_section_with cast) ms).
 
 (* what ovniemu makes of the mark metadata of a trace: None = refused *)
-Definition emu_pcf_of_trees (ts : list json) : option (list (Z * str * list (Z * str))) :=
+Definition emu_pcf_of_trees_with (cast : Z -> Z) (ts : list json) : option (list (Z * str * list (Z * str))) :=
   match emu_types_of_trees ts with
-  | Some ms => pcf_of_types ms
+  | Some ms => pcf_of_types_with cast ms
   | None => None
   end.
+
+Definition no_cast (v : Z) : Z := v.
+Definition pcf_values := pcf_values_with no_cast.
+Definition pcf_section := pcf_section_with no_cast.
+Definition pcf_of_types := pcf_of_types_with no_cast.
+Definition emu_pcf_of_trees := emu_pcf_of_trees_with no_cast.
+(* before the repair *)
+Definition pcf_of_types_old := pcf_of_types_with cast_int32.
+Definition emu_pcf_of_trees_old := emu_pcf_of_trees_with cast_int32.
 
 (* the label Paraver shows for a value of a type *)
 Definition pcf_label (secs : list (Z * str * list (Z * str))) (ty v : Z) : option str :=
